@@ -77,14 +77,22 @@ class vBinary:
     params: Parameters
 
     def __init__(self, obj):
-        self.obj = to_unicode(obj)
+        if isinstance(obj, bytes):
+            try:
+                obj = obj.decode('utf-8')
+            except UnicodeDecodeError:
+                # octets that are not text: keep them as they are
+                pass
+        self.obj = obj
         self.params = Parameters(encoding='BASE64', value="BINARY")
 
     def __repr__(self):
         return f"vBinary({self.to_ical()})"
 
     def to_ical(self):
-        return binascii.b2a_base64(self.obj.encode('utf-8'))[:-1]
+        octets = self.obj if isinstance(self.obj, bytes) \
+            else self.obj.encode('utf-8')
+        return binascii.b2a_base64(octets)[:-1]
 
     @staticmethod
     def from_ical(ical):
